@@ -112,6 +112,7 @@ fn poly_divrem(a: &[u64], b: &[u64]) -> (Vec<u64>, Vec<u64>) {
 pub fn run(ctx: &Ctx) -> i32 {
     fft_family(ctx);
     poly_algebra(ctx);
+    poly_misc_api(ctx);
     interpolation(ctx);
     zero_poly_and_cosets(ctx);
     index_permutations(ctx);
@@ -553,6 +554,165 @@ fn poly_algebra(ctx: &Ctx) {
             }
         }
     });
+}
+
+/// The remaining public routines of `PolynomialValues` / `PolynomialCoeffs` (constructors, chunking, the
+/// extension-coefficient evaluators, bulk / in-place variants), each against its defining identity.
+fn poly_misc_api(ctx: &Ctx) {
+    use plonky2_field::extension::quadratic::QuadraticExtension;
+    use plonky2_field::extension::FieldExtension;
+    type E = QuadraticExtension<F>;
+    let th = ctx.tier.thorough();
+    let alpha: Vec<u64> = vec![0, 1, P - 1, 1 << 32, 7];
+    let chk = |site: &str, case: String, ok: Result<bool, String>| {
+        if !ctx.want(&case) {
+            return;
+        }
+        ctx.tick(1);
+        match ok {
+            Ok(true) => ctx.class(format!("{site}:ok")),
+            Ok(false) => ctx.violation(site, case, "differs from the defining identity"),
+            Err(p) => ctx.violation(format!("{site}:panic"), case, p),
+        }
+    };
+    // --- PolynomialValues
+    for k in 0..=(if th { 6 } else { 4 }) {
+        let n = 1usize << k;
+        for &v in &alpha {
+            chk("values.constant", format!("values.constant {v} len={n}"), guarded(|| cv(&PolynomialValues::constant(F(v), n).values) == vec![v % P; n]));
+        }
+        chk("values.zero", format!("values.zero len={n}"), guarded(|| PolynomialValues::<F>::zero(n).is_zero() && PolynomialValues::<F>::zero(n).len() == n));
+        for idx in 0..n {
+            chk("values.selector", format!("values.selector len={n} index={idx}"), guarded(|| {
+                let s = PolynomialValues::<F>::selector(n, idx);
+                (0..n).all(|i| s.values[i].0 % P == (i == idx) as u64) && (n == 1 || !s.is_zero())
+            }));
+        }
+        // degree of the interpolant: values of x^d on the subgroup, d = 0..n-1, and the zero vector
+        let omega = lib_root(k);
+        for d in 0..n {
+            let vals: Vec<u64> = (0..n).map(|i| powm(powm(omega, i as u128), d as u128)).collect();
+            chk("values.degree", format!("values.degree len={n} monomial {d}"), guarded(|| {
+                let pv = PolynomialValues::new(fv(&vals));
+                pv.degree() == d && pv.degree_plus_one() == d + 1
+            }));
+        }
+        chk("values.degree", format!("values.degree len={n} zero"), guarded(|| PolynomialValues::<F>::zero(n).degree() == 0 && PolynomialValues::<F>::zero(n).degree_plus_one() == 0));
+        // add_assign_scaled, lde_multiple
+        let a = dense_vec(n, 31 + k as u64);
+        let b = dense_vec(n, 77 + k as u64);
+        for &w in &alpha {
+            let want: Vec<u64> = (0..n).map(|i| addm(a[i], mulm(b[i], w))).collect();
+            chk("values.add_assign_scaled", format!("values.add_assign_scaled len={n} w={w}"), guarded(|| {
+                let mut x = PolynomialValues::new(fv(&a));
+                x.add_assign_scaled(&PolynomialValues::new(fv(&b)), F(w));
+                cv(&x.values) == want
+            }));
+        }
+        for r in 0..=2usize {
+            chk("values.lde_multiple", format!("values.lde_multiple len={n} rate_bits={r}"), guarded(|| {
+                let out = PolynomialValues::lde_multiple(vec![PolynomialValues::new(fv(&a)), PolynomialValues::new(fv(&b)), PolynomialValues::zero(n)], r);
+                let each = [PolynomialValues::new(fv(&a)).lde(r), PolynomialValues::new(fv(&b)).lde(r), PolynomialValues::<F>::zero(n).lde(r)];
+                // lde itself is decided against direct evaluation in fft_family; here: element-wise, in order
+                out.len() == 3 && (0..3).all(|i| cv(&out[i].values) == cv(&each[i].values)) && {
+                    let c = naive_idft(&a, omega);
+                    let big = lib_root(k + r);
+                    cv(&out[0].values) == naive_dft(&[c.clone(), vec![0; (n << r) - n]].concat(), big, 1)
+                }
+            }));
+            chk("coeffs.lde_multiple", format!("coeffs.lde_multiple len={n} rate_bits={r}"), guarded(|| {
+                let (pa, pb) = (PolynomialCoeffs::new(fv(&a)), PolynomialCoeffs::new(fv(&b)));
+                let out = PolynomialCoeffs::lde_multiple(vec![&pa, &pb], r);
+                out.len() == 2 && out[0].len() == n << r && cv(&out[0].coeffs)[..n] == a[..] && cv(&out[1].coeffs)[..n] == b[..] && out.iter().all(|o| o.coeffs[n..].iter().all(|x| x.0 % P == 0))
+            }));
+        }
+        // --- PolynomialCoeffs
+        chk("coeffs.log_len", format!("coeffs.log_len len={n}"), guarded(|| PolynomialCoeffs::new(fv(&a)).log_len() == k));
+        for cs in 1..=n + 1 {
+            chk("coeffs.chunks", format!("coeffs.chunks len={n} chunk={cs}"), guarded(|| {
+                let ch = PolynomialCoeffs::new(fv(&a)).chunks(cs);
+                let flat: Vec<u64> = ch.iter().flat_map(|c| cv(&c.coeffs)).collect();
+                flat == a && ch.len() == n.div_ceil(cs) && ch.iter().take(ch.len() - 1).all(|c| c.len() == cs)
+            }));
+        }
+        for new_len in [n, n + 1, 2 * n, n.saturating_sub(1)] {
+            chk("coeffs.pad", format!("coeffs.pad len={n} new_len={new_len}"), guarded(|| {
+                let mut pa = PolynomialCoeffs::new(fv(&a));
+                let r = pa.pad(new_len);
+                if new_len >= n {
+                    r.is_ok() && pa.len() == new_len && cv(&pa.coeffs)[..n] == a[..] && pa.coeffs[n..].iter().all(|x| x.0 == 0)
+                } else {
+                    r.is_err() && cv(&pa.coeffs) == a
+                }
+            }));
+        }
+        // coset_fft_with_options against direct evaluation, every zero-factor that divides the length
+        for &shift in &[1u64, 7, P - 1, 1 << 32] {
+            for zf in 0..=k.min(2) {
+                let mut c = a.clone();
+                for x in c.iter_mut().skip(n >> zf) {
+                    *x = 0;
+                }
+                chk("coeffs.coset_fft_with_options", format!("coset_fft_with_options len={n} shift={shift} zero_factor={zf}"), guarded(|| {
+                    let got = PolynomialCoeffs::new(fv(&c)).coset_fft_with_options(F(shift), if zf == 0 { None } else { Some(zf) }, None);
+                    cv(&got.values) == naive_dft(&c, omega, shift)
+                }));
+            }
+        }
+        // extension-coefficient helpers (coefficients in the quadratic extension, point in the base field)
+        let ec: Vec<[u64; 2]> = (0..n).map(|i| [a[i], b[(i * 3 + 1) % n]]).collect();
+        let pe = PolynomialCoeffs::new(ec.iter().map(|c| E::from_basefield_array([F(c[0]), F(c[1])])).collect::<Vec<E>>());
+        for &x in &alpha {
+            let want = [poly_eval(&ec.iter().map(|c| c[0]).collect::<Vec<_>>(), x), poly_eval(&ec.iter().map(|c| c[1]).collect::<Vec<_>>(), x)];
+            chk("coeffs.eval_base", format!("coeffs.eval_base len={n} x={x}"), guarded(|| {
+                let g: [F; 2] = pe.eval_base::<2>(F(x)).to_basefield_array();
+                [g[0].0 % P, g[1].0 % P] == want
+            }));
+            chk("coeffs.eval_base_with_powers", format!("coeffs.eval_base_with_powers len={n} x={x}"), guarded(|| {
+                let powers: Vec<F> = (1..n).map(|i| F(powm(x, i as u128))).collect();
+                let g: [F; 2] = pe.eval_base_with_powers::<2>(&powers).to_basefield_array();
+                [g[0].0 % P, g[1].0 % P] == want
+            }));
+            chk("coeffs.eval_with_powers", format!("coeffs.eval_with_powers len={n} x={x}"), guarded(|| {
+                let powers: Vec<F> = (1..n).map(|i| F(powm(x, i as u128))).collect();
+                PolynomialCoeffs::new(fv(&a)).eval_with_powers(&powers).0 % P == poly_eval(&a, x)
+            }));
+        }
+        chk("coeffs.to_extension", format!("coeffs.to_extension len={n}"), guarded(|| {
+            let e = PolynomialCoeffs::new(fv(&a)).to_extension::<2>();
+            e.len() == n && (0..n).all(|i| { let c: [F; 2] = e.coeffs[i].to_basefield_array(); c[0].0 % P == a[i] % P && c[1].0 % P == 0 })
+        }));
+        for rhs in [[0u64, 1], [3, 0], [P - 1, 1 << 32]] {
+            chk("coeffs.mul_extension", format!("coeffs.mul_extension len={n} rhs={rhs:?}"), guarded(|| {
+                let e = PolynomialCoeffs::new(fv(&a)).mul_extension::<2>(E::from_basefield_array([F(rhs[0]), F(rhs[1])]));
+                e.len() == n && (0..n).all(|i| { let c: [F; 2] = e.coeffs[i].to_basefield_array(); c[0].0 % P == mulm(a[i], rhs[0]) && c[1].0 % P == mulm(a[i], rhs[1]) })
+            }));
+        }
+    }
+    chk("coeffs.empty", "coeffs.empty".into(), guarded(|| {
+        let e = PolynomialCoeffs::<F>::empty();
+        e.len() == 0 && e.is_zero() && e.degree_plus_one() == 0 && e.eval(F(5)).0 == 0 && e.lead().0 == 0
+    }));
+    // Sum over an iterator of polynomials of different lengths
+    chk("coeffs.sum", "coeffs.sum".into(), guarded(|| {
+        let ps = vec![PolynomialCoeffs::new(fv(&[1, 2, 3])), PolynomialCoeffs::new(fv(&[P - 1])), PolynomialCoeffs::new(fv(&[0, 0, 0, 5])), PolynomialCoeffs::<F>::empty()];
+        let s: PolynomialCoeffs<F> = ps.into_iter().sum();
+        s == PolynomialCoeffs::new(fv(&[0, 2, 3, 5]))
+    }));
+}
+
+/// coefficients of the interpolant of `vals` on the subgroup generated by omega (O(n^2) inverse DFT)
+fn naive_idft(vals: &[u64], omega: u64) -> Vec<u64> {
+    let n = vals.len();
+    let ninv = invm(n as u64 % P).unwrap();
+    let winv = invm(omega).unwrap();
+    (0..n).map(|j| {
+        let mut acc = 0u64;
+        for (i, &v) in vals.iter().enumerate() {
+            acc = addm(acc, mulm(v, powm(winv, (i * j) as u128)));
+        }
+        mulm(acc, ninv)
+    }).collect()
 }
 
 fn interpolation(ctx: &Ctx) {
